@@ -71,6 +71,11 @@ class C10(Prop):
         if fam.startswith("finds") and STRICT_FINDS:
             # the literal statement: no "no match in the grey zone" hypothesis (false, see C10_finds_iff_unique_false)
             hyp = spec_field(spec, "hypw")
+        if hyp != "1" and fam in ("scan", "scan_code") and spec_field(spec, "hypu") == "1":
+            # a file view whose section table is well formed except for its ORDER: the statement says "any
+            # image", the completeness theorem does not reach it (C10_scan_complete_needs_SecWF); judged like an
+            # in-hypothesis input — what it finds is the documented `next_section` limitation (known finding)
+            hyp = "1"
         if hyp != "1":
             return None
         if klass(impl) != "ok":
